@@ -159,6 +159,8 @@ static std::string Execute(const Op& op, const Shared& sh)
 			acc += iso + ";";
 			acc += std::to_string(C::To<std::chrono::system_clock::time_point>(iso).time_since_epoch().count()) + ";";
 			acc += C::ToString(std::chrono::seconds(op.number % 100000)) + ";";
+			acc += C::ToString(BitSerializer::CRawTime(static_cast<time_t>(op.number % 4000000000ll))) + ";";
+			acc += std::to_string(static_cast<long long>(C::To<BitSerializer::CRawTime>(iso).Time)) + ";";
 			const std::string u8 = C::To<std::string>(op.text);
 			const std::u16string u16 = C::To<std::u16string>(u8);
 			acc += u8 + ";" + std::to_string(u16.size()) + ";" + C::To<std::string>(u16);
